@@ -3149,10 +3149,18 @@ func rangeInt(n *node) {
 	var value func(*frame) reflect.Value
 	mxn := n.child[1]
 	value = genValue(mxn)
+	unsigned := isUint(ixn.typ.TypeOf())
 	n.exec = func(f *frame) bltn {
 		rv := f.data[index0]
+		if unsigned {
+			rv.SetUint(rv.Uint() + 1)
+			if rv.Uint() >= f.data[index2].Uint() {
+				return fnext
+			}
+			return tnext
+		}
 		rv.SetInt(rv.Int() + 1)
-		if int(rv.Int()) >= int(f.data[index2].Int()) {
+		if rv.Int() >= f.data[index2].Int() {
 			return fnext
 		}
 		return tnext
@@ -3162,8 +3170,12 @@ func rangeInt(n *node) {
 	next := n.exec
 	index := index0
 	ixn.exec = func(f *frame) bltn {
-		f.data[index2] = value(f) // set max
-		f.data[index].SetInt(-1)  // assing index value
+		f.data[index2] = copyValue(value(f)) // set max, evaluated once
+		if unsigned {
+			f.data[index].SetUint(^uint64(0)) // truncated to the maximum value of its type
+		} else {
+			f.data[index].SetInt(-1) // assing index value
+		}
 		return next
 	}
 }
